@@ -27,16 +27,16 @@ import (
 
 // pline is one trace line of the pool traces (all fields always present).
 type pline struct {
-	Op   string `json:"op"`   // New | Start | ServerReply | Read | Timeout | Result | Free | End
+	Op   string `json:"op"`   // New | Start | Reply | Timeout | Result | Free | End
 	C    string `json:"c"`    // caller
 	Sh   int    `json:"sh"`   // short deadline
 	N    int    `json:"n"`    // requests in the exchange
 	X    int    `json:"x"`    // connection number (dial order as seen by the server)
-	Req  int    `json:"req"`  // request answered (ServerReply)
+	Req  int    `json:"req"`  // request answered (Reply)
 	Want []int  `json:"want"` // request ids of the exchange
 	Got  []int  `json:"got"`  // reply ids returned to the caller
 	Err  string `json:"err"`  // error class returned to the caller ("" = none)
-	Fin  int    `json:"fin"`  // Read: 1 when it completes the exchange
+	Fin  int    `json:"fin"`  // Reply: 1 when it completes the caller's exchange
 	Br   string `json:"br"`
 }
 
@@ -184,7 +184,7 @@ func exchange(cl *inet.Client, ctx context.Context, reqs []int) result {
 
 // ---------------------------------------------------------------- pool-replay
 
-const shortDeadline = 60 * time.Millisecond
+const shortDeadline = 120 * time.Millisecond
 
 type poolStats struct {
 	Behaviours int    `json:"behaviours"`
@@ -260,6 +260,24 @@ func runPoolWalk(b []step, srv *echoServer, maxIdle int, base int) (out []pline,
 			}
 		}
 	}
+	// awaitOr is await that gives up as soon as the caller has returned (its deadline passed before the write)
+	awaitOr := func(want int, ch chan result) (arrival, bool) {
+		for {
+			select {
+			case a := <-srv.arrived:
+				if a.id/1000 != base {
+					srv.release(a.id)
+					continue
+				}
+				return a, a.id == want
+			case r := <-ch:
+				ch <- r // keep it for the end-of-walk collection
+				return arrival{id: -1, conn: "caller returned early: " + r.err}, false
+			case <-time.After(15 * time.Second):
+				return arrival{}, false
+			}
+		}
+	}
 	waitRes := func(c string, d time.Duration) (result, bool) {
 		select {
 		case r := <-resCh[c]:
@@ -290,7 +308,7 @@ walk:
 				defer cancel()
 				ch <- exchange(cl, ctx, reqs)
 			}()
-			a, ok := await(reqs[0])
+			a, ok := awaitOr(reqs[0], ch)
 			if !ok {
 				drift = fmt.Sprintf("step %d Start(%s): request %d did not reach the server (got %v)", i, c, reqs[0], a)
 				break walk
@@ -301,40 +319,46 @@ walk:
 			xn := connNo[a.conn]
 			pendOn[xn] = append(pendOn[xn], reqs...)
 			put(pline{Op: "Start", C: c, Sh: b2i(sh), N: n, X: xn, Want: reqs})
-		case "ServerReply":
+		case "Reply":
 			xn := argI(x, 0)
 			if len(pendOn[xn]) == 0 {
-				drift = fmt.Sprintf("step %d ServerReply(%d): nothing pending", i, xn)
+				drift = fmt.Sprintf("step %d Reply(%d): nothing pending", i, xn)
 				break walk
 			}
 			r := pendOn[xn][0]
 			pendOn[xn] = pendOn[xn][1:]
-			if !srv.release(r) {
-				drift = fmt.Sprintf("step %d ServerReply(%d): request %d is not held by the server", i, xn, r)
-				break walk
-			}
-			put(pline{Op: "ServerReply", X: xn, Req: r})
-			// the next frame of the same batch reaches the handler once this reply is written
-			if len(pendOn[xn]) > 0 && pendOn[xn][0]/10 == r/10 {
-				if a, ok := await(pendOn[xn][0]); !ok {
-					drift = fmt.Sprintf("step %d ServerReply(%d): next request %d did not arrive (got %v)", i, xn, pendOn[xn][0], a)
-					break walk
+			// whose request is it, and does this reply complete the exchange?
+			owner := ""
+			for c, w := range wantOf {
+				if _, running := resCh[c]; running && w[0]/10 == r/10 {
+					owner = c
 				}
 			}
-		case "Read":
-			c := argS(x, 0)
-			readCnt[c]++
-			if readCnt[c] < len(wantOf[c]) {
-				put(pline{Op: "Read", C: c, Want: wantOf[c]})
-				break
-			}
-			r, ok := waitRes(c, 15*time.Second)
-			if !ok {
-				drift = fmt.Sprintf("step %d Read(%s): the exchange did not return", i, c)
+			if !srv.release(r) {
+				drift = fmt.Sprintf("step %d Reply(%d): request %d is not held by the server", i, xn, r)
 				break walk
 			}
-			delete(resCh, c)
-			put(pline{Op: "Read", C: c, Fin: 1, Want: wantOf[c], Got: r.got, Err: r.err})
+			if owner == "" {
+				drift = fmt.Sprintf("step %d Reply(%d): nobody waits for request %d", i, xn, r)
+				break walk
+			}
+			readCnt[owner]++
+			if readCnt[owner] < len(wantOf[owner]) {
+				// the next frame of the batch reaches the handler once this reply is written
+				if a, ok := await(pendOn[xn][0]); !ok {
+					drift = fmt.Sprintf("step %d Reply(%d): next request %d did not arrive (got %v)", i, xn, pendOn[xn][0], a)
+					break walk
+				}
+				put(pline{Op: "Reply", C: owner, X: xn, Req: r, Want: wantOf[owner]})
+				break
+			}
+			res, ok := waitRes(owner, 15*time.Second)
+			if !ok {
+				drift = fmt.Sprintf("step %d Reply(%d): the exchange of %s did not return", i, xn, owner)
+				break walk
+			}
+			delete(resCh, owner)
+			put(pline{Op: "Reply", C: owner, X: xn, Req: r, Fin: 1, Want: wantOf[owner], Got: res.got, Err: res.err})
 		case "Timeout":
 			c := argS(x, 0)
 			r, ok := waitRes(c, shortDeadline+15*time.Second)
